@@ -72,6 +72,7 @@ type c20cfg struct {
 	script     [][]edesc
 	closeAfter int // number of consumer steps before Close; -1 = read to EOF
 	closeTwice bool
+	drainAfter int         // >= 0: after that many reads the consumer drains the stream with DiscardBytesToEOF
 	pickAsm    func() bool // who moves when both sides can
 	size       func() int  // buffer size of the next Read
 	real       bool
@@ -150,6 +151,13 @@ func runC20(c *sim.Ctx, real bool) {
 		c.Fault("close_before_eof")
 	}
 	cfg.closeTwice = c.Chance(200)
+	cfg.drainAfter = -1
+	if cfg.closeAfter < 0 && c.Chance(200) {
+		// the usual way of "keeping on reading" when the content is of no
+		// interest any more: the package's own drain helper
+		cfg.drainAfter = c.Draw(8)
+		c.Fault("drain_with_discard_helper")
+	}
 	cfg.pickAsm = func() bool { return c.Draw(2) == 0 }
 	cfg.size = func() int { return []int{1, 2, 3, 7, 64, 0, 1500}[c.Weighted(3, 2, 2, 2, 4, 1, 1)] }
 	execC20(c, cfg)
@@ -161,7 +169,7 @@ func runC20(c *sim.Ctx, real bool) {
 // then Close is placed at EVERY consumer step - before the first read, after
 // each read, after EOF - each placement executed in a fresh bubble.
 func simC20sweep(c *sim.Ctx) {
-	cfg := c20cfg{}
+	cfg := c20cfg{drainAfter: -1}
 	cfg.loss = c.Chance(500)
 	cfg.script = drawScript(c, c.Weighted(1, 3, 3, 2), 8)
 	cfg.closeTwice = c.Chance(200)
@@ -371,6 +379,7 @@ func execC20(c *sim.Ctx, cfg c20cfg) (consumerSteps int) {
 		conSteps := 0
 		conDone := false
 		closes := 0
+		drained := -1
 		for steps := 0; steps < 600+12*len(asmSteps); steps++ {
 			b.Settle()
 			asmCan := (asm.AtGate() && !asmAll) || asm.Yielded()
@@ -438,6 +447,19 @@ func execC20(c *sim.Ctx, cfg c20cfg) (consumerSteps int) {
 				conDone = true
 				continue
 			}
+			if cfg.drainAfter >= 0 && conSteps >= cfg.drainAfter && drained < 0 {
+				c.Ev("drain")
+				conSteps++
+				drained = 0
+				b.Step(con, func() {
+					drained = tcpreader.DiscardBytesToEOF(&r)
+					if !completed {
+						con.Fail("read", "early-eof", "DiscardBytesToEOF", "the drain helper returned (EOF) before the stream completed")
+					}
+					eofSeen = 2
+				})
+				continue
+			}
 			size := cfg.size()
 			c.Ev("read", int64(size))
 			conSteps++
@@ -463,11 +485,18 @@ func execC20(c *sim.Ctx, cfg c20cfg) (consumerSteps int) {
 		}
 		if !closedByConsumer {
 			var fail = func(cl, k, w, f string, a ...any) { c.Fail(cl, k, w, f, a...) }
-			advance(fail)
-			if cur != len(elems) {
-				c.Fail("read", "bytes-missing", "Read", "consumer reached EOF having read %d of %d elements", cur, len(elems))
+			if drained < 0 {
+				advance(fail)
 			}
-			if readLog.Len() != total {
+			if drained >= 0 {
+				// what was read plus what the helper says it discarded is what was delivered
+				if readLog.Len()+drained != total {
+					c.Fail("read", "bytes-missing", "DiscardBytesToEOF", "%d bytes read and %d discarded by the drain helper, %d were delivered", readLog.Len(), drained, total)
+				}
+				c.Probe("drained_to_eof")
+			} else if cur != len(elems) {
+				c.Fail("read", "bytes-missing", "Read", "consumer reached EOF having read %d of %d elements", cur, len(elems))
+			} else if readLog.Len() != total {
 				c.Fail("read", "bytes-missing", "Read", "read %d bytes, %d were delivered", readLog.Len(), total)
 			}
 			c.Probe("read_to_eof")
